@@ -140,12 +140,12 @@ func (lex *Lexer) isHeredocEndSince73(p int) bool {
 		return false
 	}
 
-	if p == len(lex.data) {
-		return false
+	for p < len(lex.data) && (lex.data[p] == ' ' || lex.data[p] == '\t') {
+		p++
 	}
 
-	for lex.data[p] == ' ' || lex.data[p] == '\t' {
-		p++
+	if p == len(lex.data) {
+		return false
 	}
 
 	l := len(lex.heredocLabel)
